@@ -124,12 +124,20 @@ def encodeField (L : List Nat) (m : FieldMeta ν) (v : FVal ν) : Except Err (Ce
 def decodeField (L : List Nat) (m : FieldMeta ν) (c : Cells ν) : FVal ν :=
   match m.shape, c with
   | .T, .one x => .scalar (if isUnset m x then none else some x)
-  | .TP, .vl xs => .points (if allUnset m xs then none else some xs)
+  | .TP, .vl xs =>
+      -- an empty array in a required field is the data of a trajectory without points (repaired); in an optional field it
+      -- cannot be told apart from "never set"
+      .points (if xs.isEmpty then (if m.required then some xs else none) else if allUnset m xs then none else some xs)
   | .TM, .row xs => .tm (if allUnset m xs then none else some xs)
   | .TS, .row xs => .sp (some ((L.zip xs).filter fun p => !isUnset m p.2))
   | .TSP, .vlRow xss => .spPts (some ((L.zip xss).filter fun p => !allUnset m p.2))
   | .TSM, .grid xss => .spTm (some ((L.zip xss).filter fun p => !allUnset m p.2))
   | _, _ => .scalar none
+
+/-- the reader of per-point arrays before the zero-point repair: `all(x == fill)` is true of the empty array, so the data of
+    a trajectory without points read as "unset" in every field and no field gave the point count -/
+def decodePointsPreZeroFix (m : FieldMeta ν) (xs : List ν) : FVal ν :=
+  .points (if allUnset m xs then none else some xs)
 
 /-- the hypothesis `fits` of the property for one field: the value has the field's shape, arrays have
     the trajectory's point count, thrust-mode values are total, species are those of the file (in file
@@ -140,7 +148,7 @@ def fitsField (npoints : Nat) (L : List Nat) (m : FieldMeta ν) (v : FVal ν) : 
   | .T, .scalar none => !m.required && blankIsUnset
   | .T, .scalar (some x) => !isUnset m x
   | .TP, .points none => !m.required
-  | .TP, .points (some xs) => xs.length == npoints && !allUnset m xs
+  | .TP, .points (some xs) => xs.length == npoints && (if xs.isEmpty then m.required else !allUnset m xs)
   | .TM, .tm none => !m.required && blankIsUnset
   | .TM, .tm (some xs) => xs.length == nThrustModes && !allUnset m xs
   | .TS, .sp (some mp) =>
